@@ -4,7 +4,7 @@ from vlib import std, hbuild, corr
 
 PID = "C42"
 META = {
-    "text": "Theorems (Properties_C42.v, closed under the global context) over the Gallina models of Ip::Address "
+    "text": "Theorems (Properties_C42.v, 22, closed under the global context) over the Gallina models of Ip::Address "
             "comparison/mask primitives (src/ip/Address.cc), acl_ip_data::firstAddress/lastAddress, "
             "Acl::SplayInserter<acl_ip_data*>::Compare/IsSubset/MakeCombinedValue, aclIpAddrNetworkCompare, "
             "ACLIP::parseGlobal/parse/match (src/acl/Ip.cc), Acl::SplayInserter<>::Merge (src/acl/SplayInserter.h) and "
@@ -26,7 +26,10 @@ META = {
             "probe (corollary). Values WITH host bits below the mask, reversed ranges and non-prefix masks are modelled as "
             "the code behaves and covered by correspondence only. Trusted: Coq kernel, extraction, harness/h_aclip.cc (it "
             "supplies ConfigParser::strtokFile tokens to the real ACLIP::parse(), sets Ip::EnableIpv6 as on a dual-stack "
-            "host, and turns self_destruct() into an exception).",
+            "host, and turns self_destruct() into an exception). Side finding outside the property (a reversed range is not a "
+            "valid value): `acl x src 10.0.0.9-10.0.0.1 10.0.0.0/8` makes Merge() free a value the tree still holds "
+            "(heap-use-after-free under ASan; the model predicts it: theorem C42_reversed_range_frees_stored_value, "
+            "reproducer in corpus/C42/known.txt). Candidate repair for C42-anyaddr-order: fixes/C42-anyaddr-order.diff.",
     "technique": "Coq proof (interval semantics of prefix masks by a / 2^h * 2^h arithmetic, sorted-disjoint invariant for "
                  "the fuel-bounded Merge loop with MakeCombinedValue, sign-monotone comparator for the shared splay "
                  "library) + extracted-model differential correspondence with exact tree shapes + independent Python oracle",
@@ -246,8 +249,8 @@ def oracle(case, out):
             for p, b in zip(probes, bits):
                 exp = any(member(d, p) for d in ds)
                 if exp != (b == "1"):
-                    if any(d[0] == "set" and d[5] for d in ds):
-                        kind = "prefix0:"
+                    if exp and not any(member(d, p) for d in ds if not (d[0] == "set" and d[5])):
+                        kind = "prefix0:"           # expected only because of a value written with prefix length 0
                     elif quirk_trigger(ds, p):
                         kind = "anyaddr-order:"
                     else:
@@ -584,6 +587,6 @@ def run(res, tier):
                        "final answers from the token TEXT with Python's ipaddress module")
     std.run_standard(res, PID, tier, area="aclip", build_impl=impl, gen_cases=gen_cases, oracle=oracle,
                      corr_name="AclipModel/SplayModel vs src/acl/Ip.cc, src/acl/SplayInserter.h, src/ip/Address.cc, include/splay.h",
-                     gens=[], n_quick=9000, n_thorough=150000, seed_salt=42, mutate=mutate,
+                     gens=[], n_quick=7000, n_thorough=150000, seed_salt=42, mutate=mutate,
                      kind_fn=kind_fn, nontrivial_fn=nontrivial, norm_impl=norm_impl, norm_model=norm_model,
                      impl_env=ENV)
